@@ -9,6 +9,7 @@ Which log line is which model event (pool object `PW0`, its queue object `PW0.q`
   A load|store PW0.q+is_empty        loadEmpty / storeEmpty
   A store U<j>+is_in_pool            storeIn           A load (FIFO_WAIT remove, before the mutex)   loadIn
   E 25|26|27 PW0.q+queue U<j>|null   link / take / unlink
+  E 23 PW0 <units> <num>             cbPushMany: ABTI_pool_push_many invokes the pool's p_push_many with num units
   (no event) thread_queue_remove returning ABT_ERR_POOL under the lock: inferred when the lock is released (or a private
   remove returns) without hook 27 -> rmFail.  Loads of is_in_pool under the lock are part of that step (they may be
   suppressed by the logger's duplicate filter) and are not projected.
@@ -219,6 +220,10 @@ def project(lg, pool="PW0"):
         elif t == "E":
             _, tid, unit, k, p1, p2, v, ln = e
             a = actor(tid, unit)
+            if a is not None and k == 23 and p1 == pool and a in incall:
+                emit("cbPushMany %d %d" % (a, v))
+                info["push_many_callbacks"] += 1
+                continue
             if a is None or k not in (25, 26, 27):
                 continue
             name, off = _loc(p1)
